@@ -62,6 +62,12 @@ func (c Cfg) Key(n uint64) interface{} {
 		return strKey(n)
 	case "bytes":
 		return []byte{byte(n >> 16), byte(n >> 8), byte(n)}
+	case "int":
+		return int(int64(n) - i64bias)
+	case "uint":
+		return uint(n)
+	case "sk":
+		return SK{strKey(n)}
 	}
 	panic("bad key kind " + c.KK)
 }
@@ -86,6 +92,12 @@ func (c Cfg) KeyNat(k interface{}) uint64 {
 			n = n<<8 | uint64(b)
 		}
 		return n
+	case int:
+		return uint64(int64(v) + i64bias)
+	case uint:
+		return uint64(v)
+	case SK:
+		return c.KeyNat(v.A)
 	}
 	panic(fmt.Sprintf("bad key %T", k))
 }
@@ -102,6 +114,12 @@ func (c Cfg) KeysLike() interface{} {
 		return ""
 	case "bytes":
 		return []byte{}
+	case "int":
+		return int(0)
+	case "uint":
+		return uint(0)
+	case "sk":
+		return SK{}
 	}
 	panic("bad key kind")
 }
